@@ -92,7 +92,7 @@ func runHist(w *world, in histIn) (out histOut) {
 		must(err)
 		return m
 	}
-	keys := map[string]string{"m1": fmt.Sprintf("hk1-%d", base), "m2": fmt.Sprintf("hk2-%d", base)}
+	keys := map[string]string{"m1": fmt.Sprintf("hk%d-one", base), "m2": fmt.Sprintf("hk%d-two", base)}
 	maps := map[string]*models.PortMapping{"m1": mk(w.L.id, w.T.id, keys["m1"]), "m2": mk(w.S.id, w.X.id, keys["m2"])}
 	mstate := map[string]string{"m1": "active", "m2": "active"}
 	idOf := map[string]string{maps["m1"].ID: "m1", maps["m2"].ID: "m2"}
@@ -111,7 +111,7 @@ func runHist(w *world, in histIn) (out histOut) {
 	}
 	defer func() {
 		for _, t := range tunID {
-			w.fx.Session.VerifDropBridge(t)
+			bounded(func() { w.fx.Session.VerifDropBridge(t) })
 			if w.routing != nil {
 				_ = w.routing.RemoveWaitingTunnel(context.Background(), t)
 			}
@@ -124,7 +124,10 @@ func runHist(w *world, in histIn) (out histOut) {
 		}
 		for _, o := range opens {
 			o.fc.Close()
-			_ = w.fx.Session.CloseConnection(o.c.ID)
+			{
+				id := o.c.ID
+				bounded(func() { _ = w.fx.Session.CloseConnection(id) })
+			}
 		}
 	}()
 	byStream := func(tc interface{ GetStream() stream.PackageStreamer }) int {
@@ -289,7 +292,7 @@ func runHist(w *world, in histIn) (out histOut) {
 			}
 		case "close":
 			had := routeVisible(st.Tun) && w.fx.Session.VerifBridge(tunID[st.Tun]) != nil
-			w.fx.Session.VerifDropBridge(tunID[st.Tun])
+			bounded(func() { w.fx.Session.VerifDropBridge(tunID[st.Tun]) })
 			if had { // runBridgeLifecycle removes the routing record asynchronously: wait for it (positive)
 				dl := time.Now().Add(5 * time.Second)
 				for routeVisible(st.Tun) && time.Now().Before(dl) {
@@ -318,15 +321,12 @@ func runHist(w *world, in histIn) (out histOut) {
 				req.MappingID = maps[named].ID
 			}
 			o.named = named
-			switch st.Secret {
-			case "right":
-				if named != "" {
-					req.SecretKey = keys[named]
-				} else {
-					req.SecretKey = keys["m1"]
+			{
+				right, other := keys["m1"], keys["m2"]
+				if named == "m2" {
+					right, other = keys["m2"], keys["m1"]
 				}
-			case "wrong":
-				req.SecretKey = "not-the-secret"
+				req.SecretKey = secretFor(st.Secret, right, other)
 			}
 			// specification: entitlement to the named mapping at arrival
 			if authed && named != "" && mstate[named] == "active" {
